@@ -17,7 +17,7 @@ Python here only renders, runs and compares projections; every expected value co
 import glob, json, os, re, subprocess, sys
 import vlib, ilparse
 
-DEVIATIONS = ["EmptyBraceNoFocus", "BraceNoReset", "UnionCover", "StrPatchOOB", "AutoBackZero",
+DEVIATIONS = ["EmptyBraceNoFocus", "BraceNoReset", "UnionCover", "AutoBackZero",
               "ReplaceEndOnly"]
 ACTIONS = ["Read", "Designate", "Advance", "Focus", "OpenBrace", "EmptyBrace", "StartExpr", "ExprFocus", "AddString",
            "AddScalar", "CloseBrace", "initadd:skip", "initadd:insert-before", "initadd:append", "initadd:replace",
